@@ -14,7 +14,7 @@ RULE = ("the matrix (invalid-specification class x entry point that reaches it) 
 ASSUMPTIONS = ["any exception type raised from package code counts as a rejection", "cases whose valid variant raises are discards"]
 
 BOTH_ENTRY = ["driving-force", "solver", "permeate-composition", "separation-factor", "ideal-curve", "nonideal-curve",
-              "ideal-iso", "ideal-noniso", "nonideal-iso", "nonideal-noniso", "pure-flux", "curve-from-fluxes", "curve-from-table"]
+              "ideal-iso", "ideal-noniso", "nonideal-iso", "nonideal-noniso", "pure-flux", "curve-from-fluxes", "curve-from-table", "membrane-directory"]
 MODEL_ENTRY = ["activity-coefficients", "partial-pressures", "driving-force", "solver", "permeate-composition", "separation-factor",
                "ideal-curve", "ideal-iso", "ideal-noniso"]
 CELLS = ([("both-permeate", e) for e in BOTH_ENTRY]
@@ -23,9 +23,9 @@ CELLS = ([("both-permeate", e) for e in BOTH_ENTRY]
          + [("uniquac-without-parameters", e) for e in MODEL_ENTRY]
          + [("uniquac-without-constants-1", e) for e in MODEL_ENTRY]
          + [("uniquac-without-constants-2", e) for e in MODEL_ENTRY]
-         + [("curve-without-data", "constructor")]
+         + [("curve-without-data", "constructor"), ("curve-without-data", "membrane-directory")]
          + [("single-experiment-without-Ea", "activation-energy"), ("single-experiment-without-Ea", "permeance-elsewhere"),
-            ("single-experiment-without-Ea", "loaded-permeance-elsewhere"),
+            ("single-experiment-without-Ea", "loaded-permeance-elsewhere"), ("single-experiment-without-Ea", "nonideal-noniso-single-curve"),
             ("no-experiment-Ea-none", "solver")])
 
 
@@ -44,6 +44,7 @@ def strategy(draw, cells):
     c["zero_permeances"] = draw(st.integers(0, 3)) == 0
     c["numtype"] = draw(st.sampled_from(["float", "float", "numpy.float64", "numpy.float32", "int"]))  # type of the two permeate values
     c["reuse"] = draw(st.booleans())  # process entries: the SAME Conditions object, made contradictory after a valid run
+    c["same_T"] = draw(st.booleans())
     c["table_mixture"] = draw(st.sampled_from(gen.BUILTIN_MIXTURES))
     c["table_blank"] = draw(st.sampled_from(["none", "pressure", "temperature"]))
     c["lone"] = draw(st.integers(1, 2))  # which component has the single experiment without Ea (listed first or after the other)
@@ -143,7 +144,40 @@ def _entry(case, s, entry, tp, pp, mdl, mix=None, pv=None):
             "partial_flux_1": [0.3, 0.4, 0.5], "partial_flux_2": [0.01, 0.01, 0.01],
             "permeance_1": [None] * n, "permeance_2": [None] * n, "units": [None] * n, "comment": [None] * n})[DC_SET_COLUMNS]
         return call(build.curve_from_frame, frame)
+    if entry == "membrane-directory":
+        # a membrane folder (ideal_experiments.csv + diffusion_curve_sets/*.csv) one of whose curve tables carries the specification
+        return _membrane_dir(case, t, tp, pp, with_fluxes=True)
     raise AssertionError(entry)
+
+
+def _membrane_dir(case, t, tp, pp, with_fluxes):
+    """Membrane.load of a folder with valid experiments, one valid curve table and one table built from the given specification."""
+    import os
+    import shutil
+    import tempfile
+
+    name = case.get("table_mixture", "H2O_EtOH")
+    n1, n2 = name.split("_")
+    cell = lambda v: "" if v is None else repr(float(v))
+    header = "curve_id,membrane_name,mixture,feed_temperature,permeate_temperature,permeate_pressure,composition,composition_type,partial_flux_1,partial_flux_2,permeance_1,permeance_2,units,comment\n"
+    d = tempfile.mkdtemp(prefix="pvverif-c19-")
+    try:
+        mdir = os.path.join(d, "MEMBRANE")
+        os.makedirs(os.path.join(mdir, "diffusion_curve_sets"))
+        with open(os.path.join(mdir, "ideal_experiments.csv"), "w") as fh:
+            fh.write("name,temperature,component,activation_energy,permeance,units,comment\n")
+            fh.write("a,313.15,%s,20000.0,0.05,kg/(m2*h*kPa),c\nb,313.15,%s,30000.0,0.002,kg/(m2*h*kPa),c\n" % (n1, n2))
+        with open(os.path.join(mdir, "diffusion_curve_sets", "first.csv"), "w") as fh:
+            fh.write(header)
+            for w in (0.1, 0.2, 0.3):
+                fh.write("1,M,%s,%r,,,%r,weight,0.3,0.01,,,,c\n" % (name, float(t), w))
+        with open(os.path.join(mdir, "diffusion_curve_sets", "second.csv"), "w") as fh:
+            fh.write(header)
+            for w in (0.15, 0.25, 0.35):
+                fh.write("1,M,%s,%r,%s,%s,%r,weight,%s,,,c\n" % (name, float(t), cell(tp), cell(pp), w, "0.4,0.02" if with_fluxes else ","))
+        return call(build.Membrane.load, mdir)
+    finally:
+        shutil.rmtree(d, ignore_errors=True)
 
 
 def _load_membrane(mem, mixture_name):
@@ -235,6 +269,12 @@ def check(case):
                     raise Discard("valid variant raised")
                 bad = _entry(case, s, entry, None, None, want, mix=broken, pv=pv_bad)
                 _rejected(bad, "%s with model %s on a mixture lacking what the model needs (%s)" % (entry, want, cls))
+            elif cls == "curve-without-data" and entry == "membrane-directory":
+                ok = _membrane_dir(case, case["T"], None, None, with_fluxes=True)
+                if is_raised(ok):
+                    raise Discard("valid variant raised")
+                bad = _membrane_dir(case, case["T"], None, None, with_fluxes=False)
+                _rejected(bad, "a membrane folder holding a curve table with neither fluxes nor permeances")
             elif cls == "curve-without-data":
                 comp = build.composition(s.x, s.basis)
                 ok = call(build.DiffusionCurve, mixture=s.mix, membrane_name="M", feed_temperature=case["T"], feed_compositions=[comp], partial_fluxes=[(0.3, 0.01)])
@@ -257,6 +297,22 @@ def check(case):
                     ok, bad = call(m_ok.calculate_activation_energy, c_lone), call(m_bad.calculate_activation_energy, c_lone)
                 elif entry == "permeance-elsewhere":
                     ok, bad = call(m_ok.get_permeance, t_other, c_lone), call(m_bad.get_permeance, t_other, c_lone)
+                elif entry == "nonideal-noniso-single-curve":
+                    # one diffusion curve only: the model needs the membrane's activation energy to leave the curve's temperature - also
+                    # when the feed STARTS exactly at the curve's temperature
+                    c0 = case["curves"]["curves"][0]
+                    one = dict(case["curves"], curves=[dict(c0, T=case["T"] if case.get("same_T", True) else c0["T"])])
+                    cs = procs.build_curve_set(one, s.mix)
+                    o = case["orders"]
+
+                    def _run(m):
+                        cond = build.conditions({"area": 1.0, "T": case["T"], "amount": 1000.0, "x": s.x, "basis": s.basis, "Tp": None, "pp": None})
+                        return call(build.Pervaporation(membrane=m, mixture=s.mix).non_ideal_non_isothermal_process, conditions=cond,
+                                    diffusion_curve_set=cs, number_of_steps=2, delta_hours=1e-3, precision=case["precision"], calculation_type=mdl,
+                                    n_first=o["n1"], m_first=0, n_second=o["n2"], m_second=0)
+
+                    ok, bad = _run(m_ok), _run(m_bad)
+                    classes.append("feed-at-curve-temperature" if case.get("same_T", True) else "feed-off-curve-temperature")
                 elif entry == "loaded-permeance-elsewhere":
                     # the same two membranes as directories (ideal_experiments.csv, blank cell = no stated activation energy)
                     l_ok, l_bad = _load_membrane(m_ok, case["mixture"]["builtin"]), _load_membrane(m_bad, case["mixture"]["builtin"])
@@ -282,6 +338,6 @@ HEAVY = [c for c in CELLS if c[1].startswith("nonideal")]
 PARTS = [
     Part("matrix", lambda tier: strategy(LIGHT), check, {"quick": 40 * len(LIGHT), "thorough": 1000 * len(LIGHT)},
          floor={"quick": 10 * len(LIGHT), "thorough": 200 * len(LIGHT)}),
-    Part("matrix-non-ideal", lambda tier: strategy(HEAVY), check, {"quick": 16 * len(HEAVY), "thorough": 300 * len(HEAVY)},
-         floor={"quick": 3 * len(HEAVY), "thorough": 50 * len(HEAVY)}, shrink={"quick": False, "thorough": True}),
+    Part("matrix-non-ideal", lambda tier: strategy(HEAVY), check, {"quick": 40 * len(HEAVY), "thorough": 300 * len(HEAVY)},
+         floor={"quick": 8 * len(HEAVY), "thorough": 50 * len(HEAVY)}, shrink={"quick": False, "thorough": True}),
 ]
